@@ -114,7 +114,7 @@ def g_attr(spec, attr_date):
 
 
 KIND = {"none": "HKAbsent", "dict": "HKMapping", "mapping": "HKMapping", "getter": "(HKGetter false)", "getter_items": "(HKGetter true)",
-        "iterable": "HKIterable", "raising": "HKRaising", "raising_mapping": "HKRaising"}
+        "iterable": "HKIterable", "iterator": "HKIterable", "raising": "HKRaising", "raising_mapping": "HKRaising"}
 
 
 def g_items(hs, texts):
@@ -207,12 +207,13 @@ def gen_case(rng):
         attr = rng.choice([None, {"t": "none"}, {"t": "str", "v": rng.choice(["", " ", "soon", "abc", "-", "nan", "None"])}])
         via = rng.random() < 0.5
         return {"kind": "coerce", "attr": attr, "via_response": via, "own_empty": rng.choice([None, "dict", "list", "tuple"]) if via else None,
-                "headers": {"kind": rng.choice(["dict", "mapping", "iterable", "getter", "getter_items"]),
-                            "items": [[NAME, {"t": "str", "v": str(rng.choice([0, 1, 7, 120, rng.randint(0, 10**6)]))}]]}}
+                "headers": {"kind": rng.choice(["dict", "mapping", "iterable", "iterator", "getter", "getter_items"]),
+                            "items": [[rng.choice([NAME, NAME, "retry-after", "RETRY-AFTER", "Retry-after", "rEtRy-AfTeR"]),
+                                       {"t": "str", "v": str(rng.choice([0, 1, 7, 120, rng.randint(0, 10**6)]))}]]}}
     keys = rng.sample(["Retry-After", "retry-after", "RETRY-AFTER", "Retry-after", "X-Other", "retry_after", "Retry-After "], rng.randint(0, 3))
     items = [[k, gen_value(rng) if rng.random() < 0.85 else {"t": "none"}] for k in keys]
-    kind = rng.choice(["none", "dict", "dict", "mapping", "getter", "getter_items", "iterable", "raising", "raising_mapping"])
-    if kind in ("dict", "mapping", "iterable") and not items:
+    kind = rng.choice(["none", "dict", "dict", "mapping", "getter", "getter_items", "iterable", "iterator", "raising", "raising_mapping"])
+    if kind in ("dict", "mapping", "iterable", "iterator") and not items:
         kind = "none"          # an empty container is falsy: `headers or response.headers`
     attr = None if rng.random() < 0.5 else gen_value(rng)
     via = rng.random() < 0.4
@@ -262,10 +263,13 @@ def header_oracle(c, o):
     a = c["attr"]
     unusable = a is None or a["t"] == "none" or (a["t"] == "str" and not any(ch.isdecimal() for ch in a["v"]) and o[4] is None)
     items = c["headers"].get("items", [])
-    if not unusable or c["headers"]["kind"] not in ("dict", "mapping", "iterable", "getter", "getter_items") or len(items) != 1:
+    if not unusable or c["headers"]["kind"] not in ("dict", "mapping", "iterable", "iterator", "getter", "getter_items") or len(items) != 1:
         return None
     key, val = items[0]
-    if key != NAME or val["t"] != "str":
+    # key casings: a container that can be walked is searched case-insensitively; one that only answers get() is asked for the
+    # canonical and the lower-case spelling
+    spellings = (NAME, NAME.lower()) if c["headers"]["kind"] == "getter" else None
+    if (key not in spellings if spellings else key.lower() != NAME.lower()) or val["t"] != "str":
         return None
     raw = val["v"].strip()
     if not (raw.isascii() and raw.isdigit() and len(raw) <= 15):
